@@ -18,6 +18,7 @@ EXPLANATION = (
     're-arms, task created on reaching CONNECTED; R4 unchanged refresh data notifies nobody (C12.R1 re-used). R5 a lost connection is followed by a new one '
     '(C07.R2 + C07.R3 re-evaluated), without which nothing is refreshed.'
     ' Rounds 7-8: R2 also: _notify_connection_changed passes every change on (no condition, no remembered state).'
+    ' Rounds 9-10: R8 now includes that the stored record is the parameter as received (C10.R2).'
 )
 ASSUMPTIONS = ["asyncio.timeout/reschedule semantics as documented"]
 FLOORS = {"C14.R1": 8, "C14.R2": 3, "C14.R3": 8, "C14.R4": 4, "C14.R5": 1, "C14.R6": 1, "C14.R7": 1, "C14.R8": 1}
